@@ -17,7 +17,15 @@ class Descs:
     def __init__(self):
         import gen_streamtypes as G
         self.G = G
-        self.types, self.order, self.vec_limit = G.build(C.REPO)
+        # the current source if it translates; otherwise (broken tie, already reported by the driver) the committed
+        # snapshot of the last good description, so that the streams and oracles still search for a failing input
+        self.types, self.order, self.vec_limit, self.broken = G.build_or_snapshot(C.REPO)
+        self.snapshot_stale = False
+        if self.broken is None:
+            try:
+                self.snapshot_stale = open(G.SNAPSHOT).read() != G.snapshot_dump(self.types, self.order, self.vec_limit)
+            except OSError:
+                self.snapshot_stale = True
         self.top = {}          # name -> descriptor
         for n, d, _, j in G.LEAF_TOP:
             self.top[n] = d
@@ -103,6 +111,7 @@ class Pools:
                 self.bad2 = [bytes.fromhex(x) for x in parts[3].split(",") if x]
         # valid v2 proofs of space from the repository's own test vectors
         self.v2 = []
+        self.v2_quality = {}     # proof bytes -> expected quality string (last line of the vector file)
         d = C.REPO + "/crates/chia-protocol/quality-string-tests"
         plot_pk = bytes.fromhex("a9c96f979d895b9ded08907ecd775abf889d51219bb7776dd73fdbac6b0dcc063c72c9e10d96776f486bbd1416b54533")
         if os.path.isdir(d):
@@ -112,6 +121,7 @@ class Pools:
                 if len(l) != 7:
                     continue
                 pool = bytes.fromhex(l[4])
+                self.v2_quality[bytes.fromhex(l[5])] = bytes.fromhex(l[6])
                 self.v2.append([bytes.fromhex(l[0]), ("some", pool) if len(pool) == 48 else None,
                                 ("some", pool) if len(pool) == 32 else None, plot_pk, 1, int(l[2]), int(l[3]), int(l[1]), 0,
                                 bytes.fromhex(l[5])])
@@ -352,7 +362,84 @@ class Enc:
             o.append(sz)
         else:
             o += pi.to_bytes(2, "big") + bytes([mg, st])
+        self.proof(ver, proof)
+
+    def proof(self, ver, proof):
         self.lenpref(proof, "byteslen")
+
+
+class Dig(Enc):
+    """reference DIGEST INPUT: the encoding, except that a v2 proof of space contributes its quality string
+    (taken from the repository's test vector files) instead of the length-prefixed proof.  `unknown` counts v2
+    proofs without a known quality string (then no reference hash exists)"""
+
+    def __init__(self, descs, quality):
+        Enc.__init__(self, descs)
+        self.quality = quality
+        self.unknown = 0
+
+    def proof(self, ver, proof):
+        if ver == 1:
+            q = self.quality.get(bytes(proof))
+            if q is None:
+                self.unknown += 1
+            else:
+                self.out += q
+        else:
+            self.lenpref(proof, "byteslen")
+
+
+def reference_hash(descs, d, v, quality):
+    """sha256 of the reference digest input, or None when the value holds a v2 proof whose quality is unknown"""
+    e = Dig(descs, quality)
+    e.enc(d, v)
+    return None if e.unknown else hashlib.sha256(bytes(e.out)).hexdigest()
+
+
+def struct_entries(descs, n):
+    """[(flat index, width, names, desc)] of the wire entries of struct n"""
+    out, i = [], 0
+    for names, fd in descs.types[n]["wire"]:
+        w = 2 if fd[0] == "Opt2" else 4 if fd[0] == "GenTail" else 1
+        out.append((i, w, names, fd))
+        i += w
+    return out
+
+
+def prefix_combo_values(descs, gen, n):
+    """values of type n covering every combination of its hand-written prefix bytes: the four two-option
+    combinations, the four generator-tail forms, the proof-of-space kinds -> [(tag, value)]"""
+    d = descs.top[n]
+    if descs.types[n]["name"] == "ProofOfSpace":
+        return [(k, gen.pos(k)) for k in ("v0pk", "v0c", "v0both", "v0none", "v1pk", "v1c", "v2real")]
+    out = []
+    for i, w, names, fd in struct_entries(descs, n):
+        if fd[0] == "Opt2":
+            for a in (0, 1):
+                for b in (0, 1):
+                    v = gen.value(d)
+                    v[i] = ("some", gen.value(fd[1], 3)) if a else None
+                    v[i + 1] = ("some", gen.value(fd[2], 3)) if b else None
+                    out.append(("opt2=%d" % (a + 2 * b), v))
+        elif fd[0] == "GenTail":
+            for tag, tail in (("tail=0", [None, [7, 0xffffffff], None, 0]), ("tail=1", [("some", PROGS[6]), [], None, 0]),
+                              ("tail=2", [None, [], None, 1]), ("tail=3", [None, [], ("some", [1, 2, 255]), 1])):
+                v = gen.value(d)
+                v[i:i + 4] = tail
+                out.append((tag, v))
+    return out
+
+
+def prefix_types(descs):
+    """types with a hand-written prefix byte (two-option helper, version-packed Option prefix)"""
+    out = []
+    for n in descs.order:
+        t = descs.types[n]
+        if t["kind"] != "struct":
+            continue
+        if t["name"] == "ProofOfSpace" or any(fd[0] in ("Opt2", "GenTail") for _, fd in (t["wire"] or [])):
+            out.append(n)
+    return out
 
 
 def encode(descs, d, v):
